@@ -25,7 +25,9 @@ STRINGS = ['""', "''", '"a"', "'a'", '"hello world"', "'it\\'s'", '"say \\"hi\\"
            "'\\\\'", '"\\x41"', '"\\u0041"', '"\\0"', "'\\r\\n'", '"/*not a comment*/"', "'// nor this'",
            '"\\b\\f\\v"', '"é"', "'变'", '"a\'b"', "'a\"b'", '"\\/"', "'\\q'", '"use strict"', "' '", '";"',
            '"}"', "'{'", '"</script>"']
-STRINGS_CONT = ['"a\\\nb"', "'a\\\r\nb'", '"x\\\ry"', '"p\\\u2028q"', "'\\\n'"]
+STRINGS_CONT = ['"a\\\nb"', "'a\\\r\nb'", '"x\\\ry"', '"p\\\u2028q"', "'\\\n'",
+                # several line terminators inside one token
+                '"a\\\nb\\\nc"', "'\\\n\\\r\n\\\rx'", '"l1\\\u2029l2\\\nl3\\\r\nl4"']
 REGEXES = ['/a/', '/a/g', '/ab+c/gi', '/[/]/', '/[a-z]/i', '/\\//', '/a\\/b/m', '/[\\]]/', '/(?:a|b)*/',
            '/^$/', '/\\d+/g', '/[^/]/', '/=/', '/=a/', '/ /', '/a b/', '/\\s/', '/[/\\]/]/', '/"/', "/'/",
            '/a/gim', '/{/', '/}/', '/(/ ', '/[(]/']
@@ -769,7 +771,8 @@ def render(tokens, style='space', rng=None, lt=None, comments=False):
                         (' ' * rng.randint(0, 4) if rng.random() < 0.5 else '')
                 elif comments and r < 0.95:
                     sep = rng.choice([' /* c%d */ ', '/*c%d*/', '/* c%d  */', '/** c%d **/', ' /*%d // */ ']) % i \
-                        if rng.random() < 0.6 else '/*m%d%s*/' % (i, lt)
+                        if rng.random() < 0.6 else rng.choice(['/*m%d%s*/', '/**%s * m%d%s */', '/*%s%s%s m%d */']).replace(
+                            '%s', lt).replace('%d', str(i))
                 elif comments:
                     # bodies with trailing / leading white space, empty bodies, comment openers inside
                     body = rng.choice([' line %d', ' line %d  ', '%d\t', ' %d \xa0', '', ' /* %d', '/ %d //'])
